@@ -95,4 +95,10 @@ theorem shape_determineHost_ok : Oidc.Shapes.Shape_determineHost := by unfold Oi
 theorem text_isLocalRedirectTarget_ok : Oidc.Shapes.Text_isLocalRedirectTarget := by unfold Oidc.Shapes.Text_isLocalRedirectTarget; rfl
 theorem text_buildFullURL_ok : Oidc.Shapes.Text_buildFullURL := by unfold Oidc.Shapes.Text_buildFullURL; rfl
 
+/-! further obligations against the regenerated program text (`Oidc/Shapes.lean`): constructor wiring and URL builders -/
+theorem text_TraefikOidc_buildAuthURL_ok : Oidc.Shapes.Text_TraefikOidc_buildAuthURL := by unfold Oidc.Shapes.Text_TraefikOidc_buildAuthURL; rfl
+theorem text_TraefikOidc_buildURLWithParams_ok : Oidc.Shapes.Text_TraefikOidc_buildURLWithParams := by unfold Oidc.Shapes.Text_TraefikOidc_buildURLWithParams; rfl
+theorem text_BuildLogoutURL_ok : Oidc.Shapes.Text_BuildLogoutURL := by unfold Oidc.Shapes.Text_BuildLogoutURL; rfl
+theorem text_New_ok : Oidc.Shapes.Text_New := by unfold Oidc.Shapes.Text_New; rfl
+
 end Oidc.Props.C15
